@@ -237,4 +237,33 @@ theorem xfe_digest_embedding (d : List Nat) (hd : WFd d) (x : Nat × Nat × Nat)
       simp [WFd] at h
 example : xfeFromDigest [1, 2, 3, 0, 1] = none ∧ xfeFromDigest [1, 2, 3, 0, 0] = some (1, 2, 3) := by decide
 
+/-! ### accessors / constructors -/
+
+/-- `Digest::reversed` reverses the five elements and is an involution; it keeps well-formedness -/
+theorem reversed_spec {d : List Nat} (h : WFd d) :
+    digestReversed d = some d.reverse ∧ digestReversed d.reverse = some d ∧ WFd d.reverse := by
+  match d, h with
+  | [d0, d1, d2, d3, d4], h =>
+    refine ⟨rfl, rfl, ?_⟩
+    simp only [WFd, List.reverse_cons, List.reverse_nil, List.nil_append, List.cons_append, List.length_cons,
+      List.length_nil, List.mem_cons, List.not_mem_nil, or_false, forall_eq_or_imp, forall_eq] at h ⊢
+    tauto
+  | [], h | [_], h | [_, _], h | [_, _, _], h | [_, _, _, _], h | _ :: _ :: _ :: _ :: _ :: _ :: _, h =>
+    simp [WFd] at h
+example : digestReversed [1, 2, 3, 4, 5] = some [5, 4, 3, 2, 1] := by decide
+
+/-- `Default` / `ALL_ZERO` is the well-formed all-zero digest, its big-integer value is 0, and it is the least digest;
+    `From<Digest> for Vec` followed by `TryFrom<Vec>` is the identity; `BYTES = 40` -/
+theorem default_and_vec_spec {d : List Nat} (h : WFd d) :
+    WFd digestDefault ∧ digestToNat digestDefault = 0 ∧ digestCmp digestDefault d ≠ .gt ∧
+    digestFromVec (digestToVec d) = some d ∧ digestBytesConst = 40 := by
+  have hw : WFd digestDefault := by decide
+  refine ⟨hw, by decide, ?_, ?_, by decide⟩
+  · rw [(biguint_order hw h).1, show digestToNat digestDefault = 0 by decide]
+    intro hgt
+    rw [Nat.compare_eq_gt] at hgt
+    omega
+  · unfold digestFromVec digestToVec; rw [if_pos h.1]
+example : WFd [P - 1, 0, 0, 0, 1] := by decide
+
 end TF.C20
